@@ -13,6 +13,11 @@ rule that matched spelling instead of meaning.  Nothing from /repo is executed; 
   nestand  `if a and b: X` -> `if a: if b: X`
   guard    trailing `if c: BODY` of a loop body -> `if not c: continue` + BODY
   testtemp `if <call>:` -> `testN_ = <call>; if testN_:`
+  noann    annotations of undecorated functions removed
+  kwargs   last positional argument of calls of plain package functions passed by keyword
+  demorgan `if a and b: X else: Y` -> `if not a or not b: Y else: X`; `not (a or b)` -> `not a and not b`
+  renamefn private module-level functions renamed consistently across the package (suffix `_r`)
+  methodorder runs of consecutive undecorated defs reversed (module level and class bodies)
 usage: mech_refactor.py [--props C01,C04] [--only rename,flip]"""
 import ast, copy, glob, os, shutil, sys, tempfile
 sys.path.insert(0, os.path.dirname(os.path.dirname(os.path.abspath(__file__))))
@@ -214,7 +219,113 @@ def t_testtemp(tree):
     return _rec_blocks(tree, visit)
 
 
-TRANSFORMS = {"rename": t_rename, "flip": t_flip, "copy": t_copy, "rettemp": t_rettemp, "elseret": t_elseret, "rename2": t_rename2, "nestand": t_nestand, "guard": t_guard, "testtemp": t_testtemp}
+def _package_private_functions():
+    """private module-level functions of the package (not the vendored typeguard): name -> parameter names (None when not plain)"""
+    out = {}
+    for f_ in FILES:
+        tree = ast.parse(open(os.path.join("/repo/jaxtyping", f_)).read())
+        for st in tree.body:
+            if isinstance(st, ast.FunctionDef):
+                a = st.args
+                plain = not (a.vararg or a.kwarg or a.posonlyargs or a.kwonlyargs or st.decorator_list)
+                out.setdefault(st.name, []).append([x.arg for x in a.args] if plain else None)
+    return {k: v[0] for k, v in out.items() if len(v) == 1}
+
+
+_PKG_FUNCS = None
+
+
+def _pkg_funcs():
+    global _PKG_FUNCS
+    if _PKG_FUNCS is None:
+        _PKG_FUNCS = _package_private_functions()
+    return _PKG_FUNCS
+
+
+def t_noann(tree):
+    """parameter and return annotations of undecorated functions removed"""
+    for fn in [n for n in ast.walk(tree) if isinstance(n, (ast.FunctionDef, ast.AsyncFunctionDef))]:
+        if any(not (isinstance(d, ast.Name) and d.id in ("staticmethod", "classmethod")) for d in fn.decorator_list):
+            continue
+        fn.returns = None
+        for a in ast.walk(fn.args):
+            if isinstance(a, ast.arg):
+                a.annotation = None
+    return tree
+
+
+def t_kwargs(tree):
+    """`f(a, b, c)` -> `f(a, b, c=c)` for calls of undecorated module-level package functions with plain parameters"""
+    funcs = _pkg_funcs()
+    for c in [n for n in ast.walk(tree) if isinstance(n, ast.Call)]:
+        if isinstance(c.func, ast.Name) and funcs.get(c.func.id) and len(c.args) >= 2 and not any(isinstance(a, ast.Starred) for a in c.args) \
+                and len(c.args) <= len(funcs[c.func.id]) and not any(k.arg is None for k in c.keywords):
+            ps = funcs[c.func.id]
+            last = c.args.pop()
+            c.keywords.insert(0, ast.keyword(arg=ps[len(c.args)], value=last))
+    return tree
+
+
+def t_demorgan(tree):
+    """`if a and b: X else: Y` -> `if not a or not b: Y else: X`; `not (a or b)` -> `not a and not b`"""
+    def neg(e):
+        if isinstance(e, ast.UnaryOp) and isinstance(e.op, ast.Not):
+            return e.operand
+        return ast.UnaryOp(op=ast.Not(), operand=e)
+
+    class T(ast.NodeTransformer):
+        def visit_If(self, n):
+            self.generic_visit(n)
+            if n.orelse and not (len(n.orelse) == 1 and isinstance(n.orelse[0], ast.If)) and isinstance(n.test, ast.BoolOp) and isinstance(n.test.op, ast.And):
+                t = ast.BoolOp(op=ast.Or(), values=[neg(v) for v in n.test.values])
+                return ast.copy_location(ast.If(test=t, body=n.orelse, orelse=n.body), n)
+            return n
+
+        def visit_UnaryOp(self, n):
+            self.generic_visit(n)
+            if isinstance(n.op, ast.Not) and isinstance(n.operand, ast.BoolOp):
+                op = ast.And() if isinstance(n.operand.op, ast.Or) else ast.Or()
+                return ast.copy_location(ast.BoolOp(op=op, values=[neg(v) for v in n.operand.values]), n)
+            return n
+    return T().visit(tree)
+
+
+def t_renamefn(tree):
+    """every private module-level function of the package gets the suffix `_r`, consistently in all modules"""
+    names = {k for k in _pkg_funcs() if k.startswith("_") and not k.startswith("__")}
+    # the cache-path function's name is magical for importlib's traceback trimming: `_call_with_frames_removed`
+    names.discard("_call_with_frames_removed")
+    for n in ast.walk(tree):
+        if isinstance(n, ast.Name) and n.id in names:
+            n.id += "_r"
+        elif isinstance(n, ast.Attribute) and n.attr in names:
+            n.attr += "_r"
+        elif isinstance(n, ast.FunctionDef) and n.name in names and n in tree.body:
+            n.name += "_r"
+        elif isinstance(n, ast.alias) and n.name in names:
+            n.name += "_r"
+    return tree
+
+
+def t_methodorder(tree):
+    """runs of consecutive undecorated defs (module level and class bodies) reversed"""
+    def reorder(body):
+        i = 0
+        while i < len(body):
+            j = i
+            while j < len(body) and isinstance(body[j], ast.FunctionDef) and not body[j].decorator_list and not body[j].args.defaults and not body[j].args.kw_defaults:
+                j += 1
+            if j - i >= 2:
+                body[i:j] = list(reversed(body[i:j]))
+            i = max(j, i + 1)
+    reorder(tree.body)
+    for c in [n for n in ast.walk(tree) if isinstance(n, ast.ClassDef)]:
+        reorder(c.body)
+    return tree
+
+
+TRANSFORMS = {"rename": t_rename, "flip": t_flip, "copy": t_copy, "rettemp": t_rettemp, "elseret": t_elseret, "rename2": t_rename2, "nestand": t_nestand, "guard": t_guard, "testtemp": t_testtemp,
+              "noann": t_noann, "kwargs": t_kwargs, "demorgan": t_demorgan, "renamefn": t_renamefn, "methodorder": t_methodorder}
 
 
 def variant(names, files):
